@@ -781,7 +781,10 @@ def _run_dataset_case(chk, world, case, m_rep, m_asis, labels, before, chunk_dir
         else:
             first[i] = snapshot(s)
         if i < len(rows) and not ill:
-            why, facts = oracle_sample(spec, cfg, rows[i], s, aug=augm)
+            try:
+                why, facts = oracle_sample(spec, cfg, rows[i], s, aug=augm)
+            except Exception as e:   # e.g. a sample of another label set (other node count)
+                why, facts = f"the sample does not have the shape the labels prescribe ({type(e).__name__}: {str(e)[:120]})", {"invented_nodes": set()}
             facts_all["invented_nodes"] |= facts["invented_nodes"]
             if why:
                 fails.append(f"ds[{i}]" + (" (augmentation on)" if augm else "") + f": {why}")
